@@ -1,0 +1,12 @@
+//go:build !verif
+
+package utils
+
+import (
+	"github.com/projectcalico/calico/cni-plugin/pkg/types"
+	client "github.com/projectcalico/calico/libcalico-go/lib/clientv3"
+)
+
+// verifClientOverride is the production twin of the verification hook in client_verif.go: it
+// never overrides the client.
+func verifClientOverride(conf types.NetConf) (client.Interface, bool) { return nil, false }
